@@ -25,7 +25,7 @@ func Kinds() []Doc {
 		{"uintptr", uintptr(9)}, {"float32", float32(0.1)}, {"float64", 2.5}, {"complex64", complex64(1 + 2i)}, {"complex128", 3 + 4i},
 		{"string", "str"}, {"estring", ""}, {"nstring", NString("ns")}, {"nint", NInt(5)}, {"nbool", NBool(true)}, {"jnum", json.Number("12")},
 		{"chan", make(chan int, 1)}, {"nilchan", (chan int)(nil)}, {"func", func() {}}, {"unsafeptr", unsafe.Pointer(&one)},
-		{"array", [2]int{1, 2}}, {"array0", [0]int{}}, {"slice", []int{1}}, {"nilslice", []string(nil)}, {"bytes", []byte("ab")}, {"nbytes", NBytes("cd")},
+		{"array", [2]int{1, 2}}, {"bytearray", [2]byte{97, 98}}, {"ptrptrarr", func() interface{} { a := [2]int{1, 2}; p := &a; return &p }()}, {"array0", [0]int{}}, {"slice", []int{1}}, {"nilslice", []string(nil)}, {"bytes", []byte("ab")}, {"nbytes", NBytes("cd")},
 		{"map", map[string]int{"a": 1}}, {"nilmap", map[string]int(nil)}, {"imap", map[int]int{1: 1}}, {"struct", S{A: 1, b: "x"}}, {"estruct", struct{}{}},
 		{"ptrarr", &[2]int{3, 4}}, {"islice", []interface{}{nil, 1}}, {"nslice", NSlice{1}},
 	}
